@@ -13,7 +13,7 @@ ASSUME = ["pyzx 0.10.6 is used through the in-process adapter harness/pyzx_adapt
           "spider phases on the 1/16-turn grid; diagrams from the ZX builder of spec/ZX.tla filtered by "
           "Pyzx!SimpleWiring; imported graphs: the exported ones, the same graphs with vertex ids reversed, and "
           "ill-formed boundary declarations (missing / shared)"]
-CONST = {"quick": {"zx": (3, 2), "replay": 350, "sim": (3, 5, 120)}, "thorough": {"zx": (3, 3), "replay": 1200, "sim": (4, 5, 300)}}
+CONST = {"quick": {"zx": (3, 2), "replay": 350, "sim": (3, 5, 120)}, "thorough": {"zx": (3, 3), "replay": 1200, "sim": (4, 4, 300)}}
 EMPTY_G = {"vs": [], "es": [], "ins": [], "outs": [], "sc": {"re": 1, "im": 0, "s": 0}}
 EMPTY_ZX = {"dom": 0, "layers": []}
 
